@@ -539,4 +539,18 @@ theorem decodeDataB_quiet (T : Tables) (fuel : Nat) (t : Template) (enforce : En
           simp only [Bool.not_true, Bool.false_eq_true, if_false]
           rw [decodeCompressedAllB_quiet T t.edition enforce fuel s4max bsq err _ _ hT e2]
 
+/-- the implementation limit on associated fields (`decodeDataC`, what the correspondence runs) only
+matters for datasets that hold more than 64 bits of associated fields on one element: otherwise the
+decoder is `decodeDataB` -/
+theorem decodeDataC_eq (T : Tables) (fuel : Nat) (t : Template) (enforce : Enforce) (nsub : Nat) (compressed : Bool)
+    (s4max : Nat) (data : List Nat) (from0 to0 : Int)
+    (h : ∀ out, decodeDataB T fuel t enforce nsub compressed s4max data from0 to0 = .ok (some out) → afOverflow out = false) :
+    decodeDataC T fuel t enforce nsub compressed s4max data from0 to0 =
+      decodeDataB T fuel t enforce nsub compressed s4max data from0 to0 := by
+  unfold decodeDataC
+  split
+  · rename_i out he
+    rw [h out he]; simp [he]
+  · rfl
+
 end Bufr
